@@ -39,6 +39,7 @@ pub struct Profile {
     pub p_delay: f64,
     pub p_setid: f64,
     pub p_stall: f64,
+    pub p_wzero: f64,
     pub rm: Vec<u16>,
     pub maxpkt: Vec<u32>,
     pub maxqos: Vec<u8>,
@@ -84,6 +85,7 @@ impl Default for Profile {
             p_delay: 0.0,
             p_setid: 0.0,
             p_stall: 0.0,
+            p_wzero: 0.0,
             rm: vec![0, 0, 1, 2, 3, 8, 20],
             maxpkt: vec![0],
             maxqos: vec![2, 2, 2, 1, 0],
@@ -330,7 +332,13 @@ impl RandomDirector {
             // retransmit what the broker still owes the client
             let rels: Vec<u16> = self.broker.out_q2_rel.clone();
             for id in rels {
-                self.broker.outq.push_back(rc::ack(6, id, 0, 2, &[]));
+                let (rcode, short) = match self.rng.gen_range(0..6) {
+                    0 => (0x92, 3),
+                    1 => (0, 3),
+                    2 => (0x92, 0),
+                    _ => (0, 2),
+                };
+                self.broker.outq.push_back(rc::ack(6, id, rcode, short, &[]));
             }
             let pubs: Vec<Vec<u8>> = self
                 .broker
@@ -442,7 +450,9 @@ impl RandomDirector {
                             self.broker.outq.push_back(rc::ack(6, cp.id, 0, short, &[]));
                         }
                     } else if self.broker.out_q2_rel.contains(&cp.id) {
-                        self.broker.outq.push_back(rc::ack(6, cp.id, 0, short, &[]));
+                        // a repeated PUBREC: the PUBREL may say so (0x92 is its only other legal reason)
+                        let rcode = if short != 2 && self.chance(0.5) { 0x92 } else { 0 };
+                        self.broker.outq.push_back(rc::ack(6, cp.id, rcode, short, &[]));
                     }
                 }
                 7 => self.broker.out_q2_rel.retain(|id| *id != cp.id),
@@ -685,6 +695,11 @@ impl Director for RandomDirector {
         }
         self.consecutive_pend = 0;
         let len = offered.len();
+        // a transport that accepts nothing: only where no packet is half-written, so that the stream
+        // stays well-formed if the client treats it (as it documents) as a non-fatal error
+        if !self.benign && self.p.p_wzero > 0.0 && self.broker.inbuf.is_empty() && self.chance(self.p.p_wzero) {
+            return IoDec::Zero;
+        }
         if !self.benign && len > 1 {
             if self.chance(self.p.p_byte) {
                 return IoDec::Ready(1);
@@ -1126,6 +1141,13 @@ impl TwinDirector {
         // with stalls the variant run sends PINGREQs the base run does not; answering them would
         // shift which poll reads which inbound packet (the stalls are too short for a timeout)
         inner.broker.mute_ping = kind == TwinKind::Stall;
+        // a CONNACK whose body is not all zeros, so that a cut inside it is visible; the values leave
+        // the behaviour of the session as it is without them
+        inner.connack_extra = vec![
+            Prop { id: 0x1F, n: 0, s: b"twin".to_vec(), t: vec![] },
+            Prop { id: 0x21, n: 8, s: vec![], t: vec![] },
+            Prop { id: 0x26, n: 0, s: b"k".to_vec(), t: b"v".to_vec() },
+        ];
         Self {
             inner,
             program: program.into(),
